@@ -722,3 +722,35 @@ def c07_collect(d):
           "observed": {"factors": [1.0, 0.0, f, 0.25], "not_collected": missing, "not_reset_by_on_train_begin": not_reset,
                        "collected": len(got)},
           "expected": "all four quantizers with the knob are collected and reset to 0.0"}
+
+
+@replayer("c01_range")
+def c01_range(d):
+  """q.range() of the real quantizer compared, as a multiset, with the code set of the format for the witness' bits /
+  integer (exact rationals)."""
+  from qkeras import quantizers
+  w = d["witness"] or {}
+  tgt = d["obligation"]
+  bits, integer = int(w.get("bits", 4)), int(w.get("integer", 0))
+  bits = min(bits, 12)
+  if "quantized_bits.range" in tgt:
+    q = quantizers.quantized_bits(bits, integer, 0, 1)
+    n = bits - 1
+    codes = range(-2 ** n, 2 ** n)
+  elif "quantized_relu.range" in tgt:
+    q = quantizers.quantized_relu(bits, integer)
+    n = bits
+    codes = range(0, 2 ** n)
+  else:
+    kn, sym = ("kn1" in d["case"]) * 1, ("sym1" in d["case"]) * 1
+    q = quantizers.quantized_linear(bits, integer, sym, kn)
+    n = bits - kn
+    codes = range((-2 ** n + sym) if kn else 0, 2 ** n)
+  step = Fraction(2) ** (integer - n)
+  want = sorted(step * k for k in codes)
+  got = sorted(Fraction(float(v)) for v in np.array(q.range()).reshape(-1))
+  ok = got == want
+  return {"status": "refuted" if ok else "confirmed",
+          "observed": {"bits": bits, "integer": integer, "range_len": len(got), "codes": len(want),
+                       "missing": [str(v) for v in want if v not in got][:5], "extra": [str(v) for v in got if v not in want][:5]},
+          "expected": "range() == the code set of the format"}
